@@ -59,14 +59,35 @@ def det_key(letter, n, salt=0):
     return bytes((ord(letter) * 7 + i * 13 + salt * 31 + 5) % 256 for i in range(n))
 
 
-def stub_transport(packetizer, cipher, mac, comp="none", server=False, authenticated=True, salt=0, strict=False):
+def other_suite(cipher, mac, k=1):
+    """a suite for the OTHER direction that differs from (cipher, mac) in cipher, MAC, MAC size and framing mode
+    wherever the tables allow: the two directions of one connection are negotiated independently (RFC 4253 7.1)"""
+    from paramiko.transport import Transport
+
+    ciphers, macs = list(Transport._cipher_info), list(Transport._mac_info)
+    oc = ciphers[(ciphers.index(cipher) + 3 * k + 1) % len(ciphers)]
+    cand = [m for m in macs if m != mac and ("etm" in m) != ("etm" in mac)
+            and Transport._mac_info[m]["size"] != Transport._mac_info[mac]["size"]]
+    cand = cand or [m for m in macs if m != mac]
+    return oc, cand[(macs.index(mac) + k) % len(cand)]
+
+
+def stub_transport(packetizer, cipher, mac, comp="none", server=False, authenticated=True, salt=0, strict=False,
+                   direction="both"):
+    """`direction`: which direction gets (cipher, mac, comp) — "out" = local_*, "in" = remote_*; the opposite direction
+    is given a DIFFERENT suite (other_suite) and no compression.  "both" = symmetric (table generation only)."""
     from paramiko.transport import Transport
 
     t = Transport.__new__(Transport)
     t.packetizer = packetizer
-    t.local_cipher = t.remote_cipher = cipher
-    t.local_mac = t.remote_mac = mac
-    t.local_compression = t.remote_compression = comp
+    oc, om = (cipher, mac) if direction == "both" else other_suite(cipher, mac, 1 + salt % 5)
+    ocomp = comp if direction == "both" else "none"
+    if direction == "in":
+        t.local_cipher, t.local_mac, t.local_compression = oc, om, ocomp
+        t.remote_cipher, t.remote_mac, t.remote_compression = cipher, mac, comp
+    else:
+        t.local_cipher, t.local_mac, t.local_compression = cipher, mac, comp
+        t.remote_cipher, t.remote_mac, t.remote_compression = oc, om, ocomp
     t.server_mode = server
     t.authenticated = authenticated
     t.agreed_on_strict_kex = strict
@@ -81,26 +102,81 @@ def stub_transport(packetizer, cipher, mac, comp="none", server=False, authentic
 
 
 def wire_up(sender_pk, receiver_pk, cipher, mac, comp="none", salt=0, strict=False):
-    """client->server direction: the client's outbound and the server's inbound, via the real glue"""
-    tc = stub_transport(sender_pk, cipher, mac, comp, server=False, salt=salt, strict=strict)
-    ts = stub_transport(receiver_pk, cipher, mac, comp, server=True, salt=salt, strict=strict)
+    """client->server direction: the client's outbound and the server's inbound, via the real glue; the
+    server->client direction of both stub transports is negotiated to a different suite"""
+    tc = stub_transport(sender_pk, cipher, mac, comp, server=False, salt=salt, strict=strict, direction="out")
+    ts = stub_transport(receiver_pk, cipher, mac, comp, server=True, salt=salt, strict=strict, direction="in")
     tc._activate_outbound()
     ts._activate_inbound()
 
 
+def activate_in(receiver_pk, cipher, mac, comp="none", salt=0, strict=False):
+    stub_transport(receiver_pk, cipher, mac, comp, server=True, salt=salt, strict=strict, direction="in")._activate_inbound()
+
+
+def activate_out(sender_pk, cipher, mac, comp="none", salt=0, strict=False):
+    stub_transport(sender_pk, cipher, mac, comp, server=False, salt=salt, strict=strict, direction="out")._activate_outbound()
+
+
 def suite_rows():
-    """[(cipher, mac, out_kwargs, in_kwargs)] for every cipher x MAC, from the real _activate_* code"""
+    """[(cipher, mac, out_kwargs, in_kwargs)] for every cipher x MAC, from the real _activate_* code.  Every
+    activation is ASYMMETRIC: local (outbound) suite (c, m), remote (inbound) suite perm(c, m) with a different cipher
+    and a different MAC; the out row of a suite comes from the run where it was the local one, the in row from the run
+    where it was the remote one — so a direction that looks at the other direction's algorithm shows in the table."""
     from paramiko.transport import Transport
 
-    rows = []
-    for c in Transport._cipher_info:
-        for m in Transport._mac_info:
+    suites = [(c, m) for c in Transport._cipher_info for m in Transport._mac_info]
+    nc, nm = len(Transport._cipher_info), len(Transport._mac_info)
+    ciphers, macs = list(Transport._cipher_info), list(Transport._mac_info)
+    out_of, in_of = {}, {}
+    for c, m in suites:
+        rc = ciphers[(ciphers.index(c) + 4) % nc]       # bijection on ciphers, no fixed point (nc > 4)
+        rm = macs[(macs.index(m) + 3) % nm]             # bijection on MACs, no fixed point (nm > 3)
+        pk = RecPk()
+        t = stub_transport(pk, c, m)
+        t.remote_cipher, t.remote_mac = rc, rm
+        t._activate_outbound()
+        t._activate_inbound()
+        out_of[(c, m)] = pk.out
+        in_of[(rc, rm)] = pk.inn
+    if set(in_of) != set(suites):
+        raise Untranslatable("suite permutation is not a bijection (tables too small)")
+    return [(c, m, out_of[(c, m)], in_of[(c, m)]) for c, m in suites]
+
+
+def direction_mixups(limit=None):
+    """model-independent check of the real _activate_* glue over ALL ordered pairs (local suite, remote suite):
+    each direction must be configured from ITS negotiated algorithms (reference: REF_* tables).  -> list of problems"""
+    from paramiko.transport import Transport
+
+    suites = [(c, m) for c in Transport._cipher_info for m in Transport._mac_info]
+    bad = []
+
+    def expect(c, m):
+        gcm = REF_CIPHER[c][1] == "GCM"
+        return {"block_size": REF_CIPHER[c][3], "mac_size": REF_GCM_TAG if gcm else REF_MAC_LEN[m],
+                "etm": (not gcm) and m.endswith("-etm@openssh.com"), "aead": gcm}
+
+    known = [s for s in suites if s[0] in REF_CIPHER and s[1] in REF_MAC_LEN]
+    for lc, lm in known:
+        for rc, rm in known:
             pk = RecPk()
-            t = stub_transport(pk, c, m)
+            t = stub_transport(pk, lc, lm)
+            t.remote_cipher, t.remote_mac = rc, rm
             t._activate_outbound()
             t._activate_inbound()
-            rows.append((c, m, pk.out, pk.inn))
-    return rows
+            for side, kw, (c, m) in (("outbound", pk.out, (lc, lm)), ("inbound", pk.inn, (rc, rm))):
+                got = {k: kw[k] for k in ("block_size", "mac_size", "etm", "aead")}
+                if side == "outbound":
+                    got["sdctr"] = kw["sdctr"]
+                want = expect(c, m)
+                if side == "outbound":
+                    want["sdctr"] = c.endswith("-ctr")
+                if got != want:
+                    bad.append({"side": side, "local": [lc, lm], "remote": [rc, rm], "got": got, "want": want})
+                    if limit and len(bad) >= limit:
+                        return bad, len(known) ** 2
+    return bad, len(known) ** 2
 
 
 # ----------------------------------------------------------------------------------------------
@@ -366,11 +442,42 @@ def toy_xor_from(k, j, data):
     return bytes(x ^ toy_ks(k, j + i) for i, x in enumerate(data))
 
 
-def toy_mac(key, msg):
+def toy_hash_k(key, msg):
     a = sum(msg) % 65536
     b = sum((i + 1) * x for i, x in enumerate(msg)) % 65536
     n = max(len(key), 1)
     return bytes(((key[j % n] if key else 0) + a * (j + 1) + b * (2 * j + 1) + len(msg)) % 256 for j in range(64))
+
+
+class ToyHash:
+    """hashlib-style digest object (block size 16, digest size 64) so that the REAL code computes the toy MAC through
+    Python's own hmac module, whichever way it chooses to call it (one-shot, keyed object + copy(), ...)"""
+
+    block_size = 16
+    digest_size = 64
+    name = "toy"
+
+    def __init__(self, data=b""):
+        self._buf = bytearray(data)
+
+    def update(self, data):
+        self._buf += data
+
+    def copy(self):
+        return ToyHash(bytes(self._buf))
+
+    def digest(self):
+        return toy_hash_k(b"", bytes(self._buf))
+
+    def hexdigest(self):
+        return self.digest().hex()
+
+
+def toy_mac(key, msg):
+    """reference: HMAC (RFC 2104) over the toy hash — equals hmac.HMAC(key, msg, ToyHash).digest() and Lean's toyMac"""
+    k0 = toy_hash_k(b"", key) if len(key) > 16 else key
+    k = k0 + bytes(16 - len(k0))
+    return toy_hash_k(b"", bytes(x ^ 0x5C for x in k) + toy_hash_k(b"", bytes(x ^ 0x36 for x in k) + msg))
 
 
 class ToyStream:
@@ -397,13 +504,13 @@ class ToyAead:
 
     def encrypt(self, iv, data, aad):
         ct = toy_xor_from(self.k, int.from_bytes(iv[4:], "big") % 65536, data)
-        return ct + toy_mac(bytes([self.k % 256]), iv + aad + ct)[:16]
+        return ct + toy_hash_k(bytes([self.k % 256]), iv + aad + ct)[:16]
 
     def decrypt(self, iv, data, aad):
         if len(data) < 16:
             raise ToyInvalidTag()
         ct, tag = data[:-16], data[-16:]
-        if toy_mac(bytes([self.k % 256]), iv + aad + ct)[:16] != tag:
+        if toy_hash_k(bytes([self.k % 256]), iv + aad + ct)[:16] != tag:
             raise ToyInvalidTag()
         return toy_xor_from(self.k, int.from_bytes(iv[4:], "big") % 65536, ct)
 
@@ -521,7 +628,7 @@ def fit_pad(rnd, n):
     return (rnd + bytes(n))[:n]
 
 
-def toy_hmac(key, message, digest_class):
+def toy_hmac(key, message, digest_class):  # kept for reference; the checks no longer patch compute_hmac
     return toy_mac(key, message)
 
 
@@ -540,7 +647,7 @@ def toy_set_outbound(pk, kind, block, maclen, sdctr, k, pos=0, mkey=b"", iv=b"")
     elif kind == "aead":
         pk.set_outbound_cipher(ToyAead(k), block, None, maclen, None, sdctr=sdctr, aead=True, iv_out=iv)
     else:
-        pk.set_outbound_cipher(ToyStream(k, pos), block, "toy", maclen, mkey, sdctr=sdctr, etm=(kind == "etm"))
+        pk.set_outbound_cipher(ToyStream(k, pos), block, ToyHash, maclen, mkey, sdctr=sdctr, etm=(kind == "etm"))
 
 
 def toy_set_inbound(pk, kind, block, maclen, k, pos=0, mkey=b"", iv=b""):
@@ -549,7 +656,7 @@ def toy_set_inbound(pk, kind, block, maclen, k, pos=0, mkey=b"", iv=b""):
     elif kind == "aead":
         pk.set_inbound_cipher(ToyAead(k), block, None, maclen, None, aead=True, iv_in=iv)
     else:
-        pk.set_inbound_cipher(ToyStream(k, pos), block, "toy", maclen, mkey, etm=(kind == "etm"))
+        pk.set_inbound_cipher(ToyStream(k, pos), block, ToyHash, maclen, mkey, etm=(kind == "etm"))
 
 
 def set_seq(pk, out=None, inn=None):
@@ -608,10 +715,11 @@ def ref_hash_of(mac):
 class RefReceiver:
     """independent parser of the client->server stream produced by `wire_up` (keys from `det_key`)"""
 
-    def __init__(self, cipher, mac, salt=0, seq=0):
+    def __init__(self, cipher, mac, salt=0, seq=0, keyfn=None):
         from cryptography.hazmat.primitives.ciphers import Cipher, algorithms, modes
         from cryptography.hazmat.primitives.ciphers.aead import AESGCM
 
+        det_key = keyfn or (lambda letter, n, salt: globals()["det_key"](letter, n, salt))
         alg, mode, klen, self.block = REF_CIPHER[cipher]
         self.gcm = mode == "GCM"
         self.etm = (not self.gcm) and mac.endswith("-etm@openssh.com")
